@@ -159,7 +159,7 @@ class Atomizer:
         if isinstance(value, (ast.BoolOp, ast.Compare)) or (isinstance(value, ast.UnaryOp) and isinstance(value.op, ast.Not)):
             self.bdefs[n] = self._formula_no_self(value, n)
             self.alias.pop(n, None)
-        elif isinstance(value, (ast.Call, ast.Attribute, ast.Subscript, ast.BinOp, ast.ListComp, ast.SetComp, ast.GeneratorExp)) and not any(
+        elif isinstance(value, (ast.Call, ast.Attribute, ast.Subscript, ast.BinOp, ast.ListComp, ast.SetComp, ast.GeneratorExp, ast.Name)) and not any(
                 isinstance(x, ast.Name) and x.id == n for x in ast.walk(value)):
             self.alias[n] = "(" + self.canon(value) + ")" if isinstance(value, ast.BinOp) else self.canon(value)
             self.bdefs.pop(n, None)
